@@ -31,6 +31,13 @@ Theorem C06_reader_site_safe : forall (k : rsite) (s : rstate),
 Proof. exact site_safe. Qed.
 Print Assumptions C06_reader_site_safe.
 
+(* hence: in every reachable state every one of the seven site kinds is safe under its guard (all [deref]s
+   of a transition are evaluated in the state the transition starts from) *)
+Theorem C06_reader_sites_total : forall (s : rstate) (k : rsite),
+  reachable s -> site_guard k s = true -> site_ok k s = true.
+Proof. exact reader_sites_total. Qed.
+Print Assumptions C06_reader_sites_total.
+
 (* ---- totality *)
 
 (* no transition panics from a reachable state: neither one of the seven site kinds (the only places where
